@@ -311,7 +311,8 @@ class RealRouter:
         from urllib.parse import quote
         self.got.clear()
         del self.fired[:]
-        p = '/' + l2s(path)
+        # PATH_INFO as gateways spell it: one leading slash, several, or none (request.path has exactly one either way)
+        p = ['/', '/', '//', '', '///'][(len(path) * 2 + len(verb)) % 5] + l2s(path)
         env = base_environ(REQUEST_METHOD=verb, PATH_INFO=p.encode('utf8').decode('latin1'))
         if accept:
             env['HTTP_ACCEPT'] = accept        # the representation of the error page must not change status or Allow
